@@ -206,6 +206,80 @@ Example c10_group_nonvacuous :
     (SL [SZ 0; SL [SL [SL [SL [SL [SB [98]%N; SZ 0; SZ 8; SZ 0]]; SL [SL [SB [97]%N; SZ 0; SZ 2; SZ 0]; SL [SB [98]%N; SZ 0; SZ 8; SZ 0]]; SL [SL [SB [97]%N; SZ 0; SZ 2; SZ 0]]; SL [SL [SB [97]%N; SZ 0; SZ 2; SZ 0]]]; SL [SL [SZ 0; SL [SZ 0; SZ 65536; SZ 196609; SZ 262145; SZ 327681; SZ 0; SZ 65536; SZ 196609; SZ 262145; SZ 327681; SZ 196609; SZ 262145; SZ 327681]]; SL [SZ 1; SL [SZ 327682; SZ 327682; SZ 327682]]; SL [SZ 65536; SL [SZ 458752; SZ 524288; SZ 458752; SZ 524288; SZ 458752; SZ 524288]]]; SL [SL [SB [97]%N; SZ 0; SZ 2; SZ 0]]]; SL [SL [SL [SL [SB [97]%N; SZ 0; SZ 4; SZ 1]]]; SL [SL [SZ 0; SL [SZ 196609; SZ 262145; SZ 327681]]; SL [SZ 1; SL [SZ 327682]]; SL [SZ 65536; SL [SZ 458752; SZ 524288]]]; SL [SL [SB [97]%N; SZ 0; SZ 2; SZ 0]]]; SL [SL []; SL [SL [SZ 0; SL [SZ 196609; SZ 262145; SZ 327681]]; SL [SZ 1; SL [SZ 327682]]; SL [SZ 65536; SL [SZ 458752; SZ 524288]]]; SL [SL [SB [97]%N; SZ 0; SZ 2; SZ 0]]]]]) = Agree.
 Proof. vm_compute. reflexivity. Qed.
 
+(* ======================= THE TOPICS LIST: index <-> name, and marks only for acknowledged records =======================
+   Start keeps for every configured name its (last) position in config.Topics, the consumer packs that index into the
+   source id, Commit reads config.Topics[index]. [index_of_topic] / [topic_of_index] are the two directions as
+   functions of the CONFIGURED list. For every list — a name listed several times, any order, names that are prefixes
+   of one another — the round trip gives the name back, without a panic, and the index is the last position of the
+   name; a position of the list resolves to a configured name whose index resolves to that name again. *)
+Theorem c10_topic_resolution_roundtrip :
+  forall topics,
+    (forall name, In name topics ->
+       topic_of_index topics (index_of_topic topics name) = Ok name /\
+       0 <= index_of_topic topics name < len topics /\
+       (forall j, topic_of_index topics j = Ok name -> j <= index_of_topic topics name)) /\
+    (forall i name, topic_of_index topics i = Ok name ->
+       In name topics /\ topic_of_index topics (index_of_topic topics name) = Ok name) /\
+    topics_resolve_b topics = true.
+Proof. exact topic_resolution_roundtrip. Qed.
+Print Assumptions c10_topic_resolution_roundtrip.
+
+(* ... and it takes the SAME list at both ends: the in-place compaction of [a; a; b] leaves [a; b; b] in the slice,
+   where the index Start took for a names b *)
+Theorem c10_topic_resolution_needs_the_same_list :
+  let a := [97]%N in let b := [98]%N in
+  topic_of_index [a; b; b] (index_of_topic [a; a; b] a) = Ok b.
+Proof. exact topic_resolution_needs_the_same_list. Qed.
+Print Assumptions c10_topic_resolution_needs_the_same_list.
+
+(* For every topics list and every choice ks of Commit calls among the consumed in-range records rs (any completion
+   order, repetitions, any subset): no Commit panics, and after EACH call every head kgo holds is (offset + 1, epoch) of
+   a record acknowledged BY THEN, under that record's own topic name and partition — the executable predicate of
+   sub-models 2 and 4 (acked_marks_pred) holds of the model's trace. A mark for (topic, partition, offset + 1, epoch)
+   exists only for an acknowledged record of exactly that topic and partition. *)
+Theorem c10_model_trace_marks_only_acked :
+  forall topics rs ks cs,
+    len topics <= 2 ^ 48 -> Forall (rec_in_range topics) rs ->
+    pick rs ks = Some cs ->
+    exists tr, commit_trace topics [] (map (event_of topics) cs) = (tr, 0) /\ length tr = length ks /\
+               acks_pred (snaps_of [] cs) tr = true /\
+               acked_marks_pred topics rs ks tr = true /\
+               forall m k h, In m tr -> In (k, h) m -> exists r, In r cs /\ key_of r = k /\ h = head_of r.
+Proof. exact model_trace_marks_only_acked. Qed.
+Print Assumptions c10_model_trace_marks_only_acked.
+
+(* The same clause for the consumer group (sub-model 5), as an invariant of the three maps of Model/KafkaGroup.v —
+   B what Kafka holds, M kgo's heads, C what the member knows to be committed — under every operation the model applies:
+   it holds at the start; a member that joins (Start, eager rebalance) keeps it; Commit of the event of an in-range
+   record does not panic and keeps it with that record acknowledged; the commit tick / Stop keeps it. Under it every
+   head MarkedOffsets shows (the heads of M that differ from C) and every offset Kafka holds passes the harness' test
+   against the acknowledged records, and every offset in Kafka is offset + 1 with the epoch of an acknowledged record
+   of that topic and partition. *)
+Theorem c10_group_marks_only_acked :
+  ginv [] [] [] [] /\
+  (forall c acked B M C, ginv acked B M C -> ginv acked B (map (fetched_head c) B) (map (fetched_head c) B)) /\
+  (forall topics acked B M C r,
+     len topics <= 2 ^ 48 -> rec_in_range topics r -> ginv acked B M C ->
+     exists M', commit topics M (event_of topics r) = Ok M' /\ ginv (r :: acked) B M' C) /\
+  (forall acked B M C, ginv acked B M C -> ginv acked (fst (tick_marks M (B, C))) M (snd (tick_marks M (B, C)))) /\
+  (forall acked B M C, ginv acked B M C ->
+     forallb (head_of_some_record acked) (filter (live C) M) = true /\
+     forallb (head_of_some_record acked) B = true /\
+     (forall k h, In (k, h) B -> exists r, In r acked /\ key_of r = k /\ h = head_of r)).
+Proof. exact group_marks_only_acked. Qed.
+Print Assumptions c10_group_marks_only_acked.
+
+(* non-vacuity of the topics-list clause on the real plugin: topics [a; a; b] (a listed twice, b behind the repeat), one
+   partition each, a/0 holds offset 5 (epoch 2), b/0 offset 20 (epoch 9); lifetime 1 acknowledges both and ticks, Stop;
+   lifetime 2 finds nothing left. First observation: what the real plugin produced (a/0 -> 6, b/0 -> 21): Agree.
+   Second observation: what a plugin produced whose NewClient compacted config.Topics in place (the acknowledgement of
+   a/0 offset 5 lands on b/0 as offset 6, a partition whose offset 5 was never consumed): the predicate rejects it. *)
+Example c10_group_topics_nonvacuous :
+  let case := SL [SL [SB [97]%N; SB [97]%N; SB [98]%N]; SL [SZ 1; SZ 1; SZ 1]; SL [SZ 1; SZ 0; SZ 0; SZ 256; SZ 5; SZ 1; SZ 0; SZ 0; SZ 0; SZ 0; SZ 0]; SL [SL [SZ 0; SZ 0; SL [SZ 5; SZ 2; SZ 0]]; SL [SZ 2; SZ 0; SL [SZ 20; SZ 9; SZ 0]]]; SL [SL [SL [SL [SZ 1; SZ 0; SZ 1]; SL [SZ 2]]; SZ 0]; SL [SL []; SZ 0]]] in
+  c10_group_run case (SL [SZ 0; SL [SL [SL [SL [SL [SB [97]%N; SZ 0; SZ 6; SZ 2]]; SL [SL [SB [97]%N; SZ 0; SZ 6; SZ 2]; SL [SB [98]%N; SZ 0; SZ 21; SZ 9]]; SL [SL [SB [97]%N; SZ 0; SZ 6; SZ 2]; SL [SB [98]%N; SZ 0; SZ 21; SZ 9]]]; SL [SL [SZ 65536; SL [SZ 327682]]; SL [SZ 131072; SL [SZ 1310729]]]; SL [SL [SB [97]%N; SZ 0; SZ 6; SZ 2]; SL [SB [98]%N; SZ 0; SZ 21; SZ 9]]]; SL [SL []; SL []; SL [SL [SB [97]%N; SZ 0; SZ 6; SZ 2]; SL [SB [98]%N; SZ 0; SZ 21; SZ 9]]]]]) = Agree /\
+  match c10_group_run case (SL [SZ 0; SL [SL [SL [SL [SL [SB [98]%N; SZ 0; SZ 6; SZ 2]]; SL [SL [SB [98]%N; SZ 0; SZ 21; SZ 9]]; SL [SL [SB [98]%N; SZ 0; SZ 21; SZ 9]]]; SL [SL [SZ 65536; SL [SZ 327682]]; SL [SZ 131072; SL [SZ 1310729]]]; SL [SL [SB [98]%N; SZ 0; SZ 21; SZ 9]]]; SL [SL []; SL [SL [SZ 65536; SL [SZ 327682]]]; SL [SL [SB [98]%N; SZ 0; SZ 21; SZ 9]]]]]) with Violates _ => True | _ => False end.
+Proof. vm_compute. split; [reflexivity | exact I]. Qed.
+
 (* ======================= FRONTIER CLAUSE — PLACEHOLDER, NOT CLAIMED HERE ======================
    "... and never passes a record of that partition that has been neither acknowledged by the
    output nor deliberately dropped."
